@@ -237,6 +237,14 @@ VARIANTS = [
         {"file": CIRC, "old": "            wire_id = fwd_injections.get_effective_id(message.packet_id)\n            fwd_injections.track_seen(wire_id)\n",
          "new": "            standin_id = fwd_injections.get_effective_id(message.packet_id)\n            fwd_injections.track_seen(standin_id)\n"},
         {"file": CIRC, "old": "packet_id=wire_id)", "new": "packet_id=standin_id)"}]},
+    {"name": "P R3 identity fast path while nothing was ever injected", "expect": "silent", "edits": [
+        {"file": CIRC, "old": "        new_id = orig_id + self._injection_base\n",
+         "new": "        if self._pristine():\n            return orig_id\n        new_id = orig_id + self._injection_base\n"},
+        {"file": CIRC, "old": "    def was_injected(self, packet_id: int):",
+         "new": "    def _pristine(self):\n        return not self.injections and self._injection_base == 0\n\n    def was_injected(self, packet_id: int):"}]},
+    {"name": "R3 identity fast path that only checks the deque (evicted injections forgotten)", "file": CIRC, "expect": "C04.R3",
+     "old": "        new_id = orig_id + self._injection_base\n",
+     "new": "        if not self.injections:\n            return orig_id\n        new_id = orig_id + self._injection_base\n"},
     # ------------------------------------------------------------------ documented limits
     {"name": "X forward shift boundary < -> <= (value-level)", "file": CIRC, "expect": "miss",
      "old": "if new_id < packet_id and new_id not in self.injections:", "new": "if new_id <= packet_id and new_id not in self.injections:"},
